@@ -273,3 +273,5 @@ func keys(m map[string]bool) string {
 	sort.Strings(ks)
 	return "[" + strings.Join(ks, " ") + "]"
 }
+
+func sortStrings(s []string) { sort.Strings(s) }
